@@ -521,7 +521,7 @@ func (t *taskRun) run(ld []*runtime.Script, base int, when func() (tm input.Poin
 }
 
 func execute(p *core.Plan, w *Workload, pristine bool, res *core.Result) ([]*taskRun, *simrt.World, string) {
-	world := core.BeginWorld(p, 4000000, pristine)
+	world := core.BeginWorld(p, 40000000, pristine)
 	tasks := make([]*taskRun, len(w.Tasks))
 	// the probe dispatches on the running task
 	var current func() *taskRun
